@@ -1029,7 +1029,8 @@ def load_oracle(case, obs, exp):
 
 def load_features(case):
     texts = [bytes(r).decode("utf8", "replace") for r in case[2]]
-    labels = ["readers=%d" % len(texts), "seed:" + ("empty" if case[1] == "" else "lower" if str(case[1]).isalnum() and str(case[1]).islower() or str(case[1]).isdigit() else "other"),
+    seed = bytes(case[1]).decode("latin1") if isinstance(case[1], list) else str(case[1])
+    labels = ["readers=%d" % len(texts), "seed:" + ("empty" if seed == "" else "lower" if all(c in "0123456789abcdefghijklmnopqrstuvwxyz" for c in seed) else "other"),
               "size<=100" if sum(map(len, texts)) <= 100 else "size<=1000" if sum(map(len, texts)) <= 1000 else "size>1000",
               "has-node" if any("---" in t for t in texts) else "no-node",
               "invalid-utf8" if any(bytes(r) != bytes(r).decode("utf8", "replace").encode("utf8") for r in case[2]) else "utf8"]
